@@ -62,6 +62,33 @@ fn snap(m: &Matter, local_sid: u16) -> Option<SessionSnap> {
     })
 }
 
+/// Secured datagrams too short to carry an authentication tag: the unencrypted header of a genuine datagram with a fresh
+/// counter, followed by 6..15 bytes that read like a clear-text protocol header (initiator flag, with / without the
+/// reliability flag, a new exchange id, the test protocol) and a few payload bytes.
+pub fn runts(g1: &[u8], hl: usize) -> Vec<(String, Vec<u8>)> {
+    let mut out = Vec::new();
+    let mut k = 0u32;
+    for n in 0..=15usize {
+        for flags in [0x01u8, 0x05, 0x03] {
+            let mut d = g1[..hl].to_vec();
+            let ctr = u32::from_le_bytes([d[4], d[5], d[6], d[7]]).wrapping_add(40 + k);
+            d[4..8].copy_from_slice(&ctr.to_le_bytes());
+            k += 1;
+            let mut body = vec![flags, 1, 0x70 + n as u8, 0x33, (PROTO & 0xff) as u8, (PROTO >> 8) as u8];
+            if flags & 0x02 != 0 {
+                body.extend_from_slice(&[0, 0, 0, 0]);
+            }
+            while body.len() < n {
+                body.push(1);
+            }
+            body.truncate(n);
+            d.extend_from_slice(&body);
+            out.push((format!("runt{n}f{flags}"), d));
+        }
+    }
+    out
+}
+
 fn plain_hdr_len(d: &[u8]) -> usize {
     let mut copy = d.to_vec();
     let mut pb = ParseBuf::new(&mut copy);
@@ -176,7 +203,7 @@ fn one_case(c: &Value) -> Outcome {
     let (k1ab, _k1ba) = (key(0x11), key(0x21));
     let node_a = if pase { 0 } else { NODE_A };
 
-    let _end = drive(all.as_mut(), &net, &Limits { max_virtual_ms: 60_000, ..Default::default() }, |net| {
+    let end = drive(all.as_mut(), &net, &Limits { max_virtual_ms: 60_000, ..Default::default() }, |net| {
         // capture everything A sends to B; drop what B sends (acks, SessionNotFound answers) after counting it
         {
             let mut n = net.borrow_mut();
@@ -232,6 +259,11 @@ fn one_case(c: &Value) -> Outcome {
                     d.push(0x5a);
                     push("mut", d, 1, 11, false)
                 }
+                "runt" => {
+                    for (label, d) in runts(&g1, hl) {
+                        push(&label, d, 1, 11, false);
+                    }
+                }
                 "transplantHeader" => {
                     let mut d = g2[..hl].to_vec();
                     d.extend_from_slice(&g1[hl..]);
@@ -267,12 +299,20 @@ fn one_case(c: &Value) -> Outcome {
         match todo.pop() {
             Some((label, bytes, to, sid, auth)) => {
                 let m = if to == 0 { &a } else { &b };
+                crate::util::beat(&format!("{}:{}", CASE.with(|x| x.get()), label));
                 current = Some((label, to, sid, auth, snap(m, sid), got.borrow().len()));
                 Step::Inject { src: 1 - to, dst: to, data: bytes }
             }
             None => Step::Stop,
         }
     });
+    if let (crate::world::End::Storm, Some((label, to, sid, authentic, before, got_before))) = (&end, current.take()) {
+        // the stack polls itself for ever after this injection: report what is observable and stop
+        let m = if to == 0 { &a } else { &b };
+        let delivered = got.borrow().iter().skip(got_before).any(|g| g.0 == to);
+        events.push(json!({"ev": "Inject", "label": label, "authentic": authentic, "delivered": delivered, "delivered_what": [],
+                           "intact": true, "silent": before == snap(m, sid), "storm": true}));
+    }
     Outcome { events }
 }
 
@@ -391,17 +431,28 @@ pub fn run_ctr(args: &[String]) -> i32 {
     0
 }
 
+thread_local! {
+    pub static CASE: core::cell::Cell<usize> = const { core::cell::Cell::new(0) };
+}
+
 pub fn run(args: &[String]) -> i32 {
     let cases = read_ndjson(&arg(args, "--behaviours").expect("--behaviours"));
-    let mut tr = Trace::create(&arg(args, "--out").expect("--out"));
+    let out = arg(args, "--out").expect("--out");
+    // --from i: skip the first i cases (the check goes on after a case in which the stack never returned from a poll)
+    let from = crate::util::arg_u64(args, "--from", 0) as usize;
+    let mut tr = Trace::create(&out);
+    crate::util::watchdog(&out, 20);
     let mut n_inj = 0usize;
-    for (ci, c) in cases.iter().enumerate() {
+    for (ci, c) in cases.iter().enumerate().skip(from) {
+        crate::util::beat(&format!("{ci}:start"));
+        CASE.with(|x| x.set(ci));
         let o = if c["mode"] == "group" { Outcome { events: crate::c03g::one_case(c) } } else { one_case(c) };
         for mut e in o.events {
             e["case"] = json!(ci);
             n_inj += 1;
             tr.ev(e);
         }
+        tr.flush();
     }
     tr.finish();
     println!("{}", json!({"cases": cases.len(), "injections": n_inj}));
